@@ -50,6 +50,7 @@ type Batch struct {
 	Samples     []json.RawMessage   `json:"samples,omitempty"`
 	Abandoned   int                 `json:"abandoned"`
 	Concurrent  int                 `json:"concurrent_execs"`
+	Nested      int                 `json:"nested_execs"`
 }
 
 type result struct {
@@ -414,6 +415,31 @@ func RunBatch(seed uint64, names []string, from, count int, plan Plan, quiet boo
 	if to > len(names) {
 		to = len(names)
 	}
+	// nested directives: a stub runs the directive of another program of this
+	// runner (one whose functions all find their execution without the global)
+	var nestable []*rt.Entry
+	for _, n := range rt.Names() {
+		if e := rt.Lookup(n); e.Prog.ConcurrentOK {
+			nestable = append(nestable, e)
+		}
+	}
+	var nestSeq atomic.Uint64
+	rt.NestedRun = func(parent *rt.Exec, fn int) {
+		if len(nestable) == 0 {
+			return
+		}
+		n := nestSeq.Add(1)
+		e2 := nestable[int(prog.Mix(seed^parent.ID*131^uint64(fn))%uint64(len(nestable)))]
+		id := rt.NextID()
+		tag2 := []string{"ok", "ok", "fault", "panic", "pred"}[n%5]
+		if !applicable(e2.Prog, tag2) {
+			tag2 = "ok"
+		}
+		sc2 := prog.GenScenario(e2.Prog, prog.NewRand(seed, parent.ID, uint64(fn), n), id, tag2, int(n))
+		x2 := execute(e2, sc2, id, quiet, false)
+		x2.NestEntry = e2
+		parent.AddChild(x2)
+	}
 outer:
 	for pi := from; pi < to; pi++ {
 		e := rt.Lookup(names[pi])
@@ -464,6 +490,7 @@ outer:
 				var leak []mon.G
 				var leakIncon bool
 				var started atomic.Bool
+				nested := 0
 				go func() {
 					defer close(done)
 					if group == 1 {
@@ -494,6 +521,16 @@ outer:
 								}
 								viols = append(viols, v)
 							}
+							for ci, ch := range xs[gi].Children() {
+								settle(ch, baseline+1, quiet)
+								ce := ch.NestEntry.(*rt.Entry)
+								for _, v := range Judge(ce, ch.Sc, ch) {
+									v.Why = fmt.Sprintf("[directive of %s nested in a function of %s, nested execution %d] %s", ce.Name, e.Name, ci, v.Why)
+									viols = append(viols, v)
+								}
+								nested++
+								ch.Close()
+							}
 						}
 					}
 				}()
@@ -514,6 +551,7 @@ outer:
 				if group > 1 {
 					b.Concurrent += group
 				}
+				b.Nested += nested
 				if verdict != "done" {
 					b.Abandoned++
 					switch verdict {
